@@ -64,8 +64,9 @@ def Shape.construct (sh : Shape) (a : Args) (kw : Bool) : Option Args :=
 def Shape.ctor (sh : Shape) (a : Args) : Option Args := sh.construct a false
 
 def mkClass (name : String) (bases : List String) (sh : Shape) (falsy : Bool := false)
-    (copyVia : CopyKind := .args) (sealed : Bool := false) (frozen : Bool := false) : ClassInfo :=
+    (copyVia : CopyKind := .args) (sealed : Bool := false) (frozen : Bool := false)
+    (boolRaises : Bool := false) : ClassInfo :=
   { name := name, bases := bases, ctor := sh.ctor, falsy := falsy, copyVia := copyVia, sealed := sealed,
-    frozen := frozen }
+    frozen := frozen, boolRaises := boolRaises }
 
 end Glom.C04
